@@ -674,6 +674,10 @@ func exp(x Number) (Number, error) {
 
 	r := Float(math.Exp(vx))
 
+	if math.IsInf(float64(r), 0) { // The check above rounds, too.
+		return nil, exceptionalValueFloatOverflow
+	}
+
 	if r == 0 { // e^x != 0.
 		return nil, exceptionalValueUnderflow
 	}
@@ -1329,7 +1333,11 @@ func addF(x, y Float) (Float, error) {
 		return 0, exceptionalValueFloatOverflow
 	}
 
-	return x + y, nil
+	r := x + y
+	if math.IsInf(float64(r), 0) { // The checks above round, too.
+		return 0, exceptionalValueFloatOverflow
+	}
+	return r, nil
 }
 
 func subF(x, y Float) (Float, error) {
